@@ -61,8 +61,12 @@ def rule_gate(ctx: Ctx, repo: Repo) -> None:
                             raise AnalysisError(f"handle_call: {len(outs)} outcomes for one scenario")
                         effs = relevant(outs[0].effects)
                         dr = [e for e in effs if e[0] == "draw"]
+                        rs = [e for e in effs if e[0] == "rng-state"]
+                        ctx.check(not rs, "R-C18.1", w,
+                                  "the generator's state is neither saved/restored nor re-seeded around the draw (successive draws must be independent; a restored state repeats the same draw for every call)",
+                                  construct=f"{sorted(set(e[1] for e in rs))}", scenario=f"{p.label()} rate={rate}")
                         stores = [e for e in effs if e[0] == "setitem" and e[1] == "self.traces"]
-                        others = [e for e in effs if e[0] != "draw"]
+                        others = [e for e in effs if e[0] not in ("draw", "rng-state")]
                         lab = f"{p.label()} rate={rate} draw={draw} func={'yes' if isinstance(func, S) else 'None'} traced={in_traces}"
                         if rate is None:
                             ctx.check(not dr, "R-C18.1", w, "no sampling draw when the rate is unset",
